@@ -179,6 +179,10 @@ WPATTERN = [-1]
 XMAG = [-1]
 
 
+XIDENT = [0]
+XCAND = [0]
+
+
 def warp_event(darsia, rng, dim, sshape, ks, shift, typed, payload, tid, dshape_mode):
     """Index map w = P v + t realised as an AffineTransformation typed in voxels / voxel centres / coordinates."""
     P = rot_matrix(dim, ks)
@@ -255,8 +259,21 @@ def warp_event(darsia, rng, dim, sshape, ks, shift, typed, payload, tid, dshape_
         h = rng.choice([1.0, 0.5, 0.1])
         # (magnitudes in turn: ordinary; both frames a million voxel sizes away from zero (and coinciding when the shapes agree);
         # sub-nanometre voxels - powers of two keep the positions exact)
-        XMAG[0] += 1
-        if XMAG[0] % 3 == 1:
+        ident_ok = all(k == 0 for k in ks) and tuple(dshape) == tuple(sshape) and any(int(x) != 0 for x in t)
+        XCAND[0] += int(ident_ok)
+        if ident_ok and XCAND[0] % 2 == 1:
+            # the index shift realised by the IDENTITY map in physical coordinates between two canvases of one shape and voxel
+            # size that sit elsewhere (the destination placed so that the physical translation vanishes exactly)
+            XIDENT[0] += 1
+            h = rng.choice([1.0, 0.5, 0.25])
+            so = [rng.choice([0.0, 3.0, -2.5]) for _ in range(dim)]
+            cs0 = image(sshape, [h] * dim, origin=so).coordinatesystem
+            o0 = np.asarray(cs0.coordinate([0] * dim), dtype=float)
+            M0 = np.array([np.asarray(cs0.coordinate(list(np.eye(dim, dtype=int)[m])), dtype=float) - o0 for m in range(dim)]).T
+            src, dst, A = physical(h, [float(x) for x in (np.asarray(so) - M0 @ np.asarray(t, dtype=float))], src_origin=so)
+            if not (np.array_equal(np.asarray(A.rotation), np.eye(dim)) and not np.any(np.asarray(A.translation))):
+                raise MachineryError("the physical map constructed as the identity is not the identity")
+        elif XMAG.__setitem__(0, XMAG[0] + 1) or XMAG[0] % 3 == 1:  # (advances the magnitude counter, then takes its turn)
             h = rng.choice([1.0, 0.5])
             far = [1e6 * h * (1 + a_) for a_ in range(dim)]
             src, dst, A = physical(h, list(far), src_origin=list(far))
@@ -436,6 +453,18 @@ def run(ck, replay=None):
             ev = warp_event(darsia, rng, dim, sshape, ks, shift, typed, payload, f"warp:{i}", dmode)
             ev["case"] = {"op": "warp", "dim": dim, "sshape": sshape, "k": list(ks), "shift": shift, "typed": typed, "payload": payload, "dmode": dmode, "kind": kind}
             events.append(ev)
+        # index shifts realised by the identity map in physical coordinates (displaced canvases), in every dimension and payload
+        # kind in turn (the branch of warp_event takes every other candidate)
+        j = 0
+        for dim in (2, 3):
+            for shift in ([1, 0, 0][:dim], [-1, 2, 0][:dim], [0, -1, 1][:dim], [2, 1, -1][:dim]):
+                for _ in range(2):
+                    payload = ["scalar", "vector", "series"][j % 3]
+                    sshape = [4, 5, 3][:dim]
+                    ev = warp_event(darsia, rng, dim, sshape, (0,) if dim == 2 else (0, 0, 0), shift, "X", payload, f"warp:ident:{j}", "fit")
+                    ev["case"] = {"op": "warp", "dim": dim, "sshape": sshape, "k": [0] * (1 if dim == 2 else 3), "shift": shift, "typed": "X", "payload": payload, "dmode": "fit", "kind": "shift"}
+                    events.append(ev)
+                    j += 1
         for i in range(3 if quick else 20):
             events.append(ctmeta_event(darsia, rng, f"ctmeta:{i}"))
     cases = {e["tid"]: e.pop("case", None) for e in events}
@@ -451,6 +480,9 @@ def run(ck, replay=None):
             nz = sum(1 for k in e.get("k", []) if k % 4) if e["op"] == "affine" else 0
             sig = f"C09:{b['clause']}:{e['op']}:{e.get('dim')}d" + (f":{nz}angles" if e["op"] == "affine" else "")
             ck.violation(sig, f"{e['op']} violates {b['clause']}", {k: v for k, v in e.items() if k in ("op", "dim", "k", "sn", "sd", "t", "R", "Rinv", "angles6")})
+    ck.cov["identity_physical_maps"] = XIDENT[0]
+    if XIDENT[0] == 0 and not replay:
+        raise MachineryError("no warp realised by the identity map in physical coordinates was driven")
     ck.cov["evaluations"] = len(events)
     ck.cov["distinct_nontrivial"] = len({(e["op"], e.get("dim"), tuple(e.get("k", [])), e.get("typed"), tuple(e.get("sshape", [])), tuple(e.get("t", []))) for e in events if any(e.get("k", [1]))})
     ck.cov["rule"] = "all 4 (2-D) and 64 (3-D, from TLC) quarter-turn angle tuples with seeded translations/scalings; seeded generic angles; warps (identity, shifts incl. larger than the image, quarter turns, three typings, three payload kinds, differing destination shapes/voxel sizes); non-trivial = at least one non-zero angle or shift"
